@@ -108,6 +108,12 @@ def run(ctx, rep):
     # ------------------------------------------------------------------ (c) laziness
     rule_io_protocol(F, rep, "lazy-io")
     check_read_sites(F, rep)
+    # the helpers the query read sites take their ranges from yield the header-designated file ranges (not e.g. the memory size)
+    from .c03 import range_helpers
+    from .. import prov
+    from ..engine import program
+    prov.set_program(program(F))
+    range_helpers(F, rep, "lazy-read-site")
     rep.trusted_base += ["as C01; std's HashMap/Vec/Box methods listed in ALLOC_OK behave as documented",
                         "an allocation of at most stream-length bytes succeeds (allocation failure on legitimately large streams is out of scope)"]
     rep.assumptions += ["the numeric 'small constant multiple' is not computed: the rule shows each sized allocation <= stream length "
